@@ -2,9 +2,11 @@ SPECIFICATION Spec
 CONSTANTS
   ShardFailureFix = TRUE
   CursorFix = TRUE
+  CursorRawDecode = FALSE
   NullMemberFix = TRUE
   InputSets <- AllInputs
   TreeLevel = 1
+  MaxHitsKeys = 2
   MaxItems = 3
   MaxHits = 2
   MaxPages = 2
